@@ -433,3 +433,36 @@ SPECS["C11"] = dict(
         c05("take_8", "harness_take", "quick", 4, 1, cost=5),
     ],
 )
+
+
+def c04(name, nt, k, tier, timeout=1800, solver="kissat"):
+    d = dict(H4)
+    d.update({"NT": nt, "K": k})
+    return Q(name, "c04_gvt.c", tier=tier, defs=d, unwind=max(k, 4) + 1, solver=solver, native=False, timeout=timeout, cost=9,
+             bounds="%d threads, %d scheduler steps (process-a-message / enter round / reduction step), <= 3 pending messages per thread, timestamps over an 8-value ordered domain, staggered round entry" % (nt, k))
+
+
+SPECS["C04"] = dict(
+    level="model_checking",
+    encodes=["gvt/gvt.c:gvt_start_processing", "gvt_on_msg_extraction", "gvt_thread_phase_run", "gvt_node_reduce (through reducing_p)", "mm/msg_allocator.c:msg_allocator_on_gvt"],
+    assumptions=["threads sequentialised at call granularity (each call performs at most one effectful shared access); thread-local variables of the simulated threads are swapped by the harness",
+                 "the per-thread queue is a harness model (pending timestamps, peek = minimum) - the real queue meets it by C15",
+                 "finite ordered timestamp domain: the reduction only compares and takes minima, so any violating execution has an order-isomorphic one in the domain (data-independence argument, trusted)",
+                 "table sizes shrunk through hook H4 (MAX_THREADS 4, MAX_NODES 4)"],
+    outside=["the node-level phases (MPI colour counting, two reductions per round) and messages in MPI flight", "more than 2 threads / more than K steps", "monotonicity across rounds and equality across ranks (whole-round harness not tractable, see DESIGN.md)", "weak memory"],
+    level_text="bounded model checking of the real thread-level reduction core under all schedules of the bound: nothing pending or extracted below the reduced minimum; consumers of the GVT (buffer recycling) checked in C11/C13",
+    queries=[
+        c04("core_t2_k11", 2, 11, "quick", timeout=1200),
+        c04("core_t2_k12", 2, 12, "thorough", timeout=3000),
+        Q("msg_allocator_on_gvt", "c11_shutdown.c", func="harness_allocator", unwind=6, unwindset={"memcpy.0": 42}, timeout=600,
+          bounds="buffers parked until GVT are recycled iff their timestamp is below the GVT"),
+    ],
+)
+
+SPECS["C04"]["queries"] += [
+    Q("node_round_k18", "c04_node.c", tier="quick", defs=dict(H4, K=18), unwind=19, solver="kissat", native=False, timeout=2400, cost=10,
+      flags=["--no-standard-checks", "--unwinding-assertions", "--bounds-check"],
+      bounds="one worker thread of rank 0 in a 2-rank run, one full GVT round (two reductions, colour flip, sent-count and min reductions with arbitrary completion times) interleaved with message processing, <= 3 local pending and <= 3 remote sends, 18 steps; rank 1 is a passive receiver"),
+]
+SPECS["C04"]["encodes"] += ["gvt/gvt.c:gvt_phase_run", "gvt_node_phase_run", "gvt/gvt.h:gvt_remote_msg_send"]
+SPECS["C04"]["assumptions"] += ["node-level query: rank 1 is a passive receiver; the MPI collectives are harness models (sum-scatter returns this rank's column; all-reduce-min includes every old-colour message, which the receiver has received before contributing, by the colour protocol); completion times arbitrary"]
